@@ -200,11 +200,14 @@ func concCache(capv, writers, ops, keyspace int, seed uint64) (int64, int, strin
 	keys := concKeys(cache.VerifCacheSegMap(c), keyspace, vlib.NewR(seed^0x5bd1e995))
 	// a private token pool: distinct pointers, few enough that CAS/CAD old
 	// tokens coincide with the stored one often.
-	toks := make([]*box, 8)
+	// toks[0] is the nil interface: CompareAndSwap(k, nil, v) must act only
+	// on a STORED nil, never on a miss.
+	toks := make([]any, 8)
 	tokID := map[*box]uint64{}
-	for i := range toks {
-		toks[i] = &box{payload: uint64(i % 3)}
-		tokID[toks[i]] = uint64(i)
+	for i := 1; i < len(toks); i++ {
+		b := &box{payload: uint64(i % 3)}
+		toks[i] = b
+		tokID[b] = uint64(i)
 	}
 	t := concCacheT{c, tokID}
 	var done atomic.Bool
